@@ -9,7 +9,8 @@
   escape_marked    whether the ``except BaseException`` clause of ``_dispatch_telemetry`` records an unrecorded failure.
 Tables (tied by reflexivity in tie/T_AccessLog.v): the keys ``_emit_access_log`` writes, in source order, with their
 guards; the sentinel dict (key -> source expression); the keyword arguments of the ``_emit_access_log`` call in
-``_dispatch_telemetry``.
+``_dispatch_telemetry``; the statements of ``_unpack_and_recover_state`` before the state rebuild (where the stream id of a
+continuation is published from the resolved call, cache hit or miss).
 """
 from __future__ import annotations
 
@@ -238,6 +239,18 @@ def telemetry(repo: Path) -> tuple[bool, list[tuple[str, str]]]:
     return marked, args
 
 
+def recover_head(repo: Path) -> list[str]:
+    """The statements of ``_unpack_and_recover_state`` up to the state rebuild: open the cursor, look the call up,
+    reopen the call token on a miss, then -- hit or miss -- publish the stream id."""
+    site = "vgi_rpc/http/server/_app_stream.py:_unpack_and_recover_state"
+    fn = _func(_parse(repo / "vgi_rpc" / "http" / "server" / "_app_stream.py"), "_unpack_and_recover_state", site)
+    body = _strip_doc(fn.body)
+    idx = [i for i, n in enumerate(body) if isinstance(n, ast.Try)]
+    if not idx:
+        raise TranslationBroken(site, "no try statement (state rebuild) found")
+    return [ast.unparse(n) for n in body[: idx[0]]]
+
+
 def definitions(repo: Path) -> str:
     lim = msg_limit(repo)
     message_sites(repo)
@@ -245,6 +258,7 @@ def definitions(repo: Path) -> str:
     keys = emit_keys(repo)
     keeps, table, head = sentinel(repo)
     marked, targs = telemetry(repo)
+    rhead = recover_head(repo)
     pair = lambda a, b: f"({cstr(a)}, {cstr(b)})"  # noqa: E731
     out = [
         f"Definition gen_shape : shape :=\n  {{| msg_limit := {'None' if lim is None else f'Some {lim}%nat'}; error_msg_always := {'true' if always else 'false'}; "
@@ -257,6 +271,8 @@ def definitions(repo: Path) -> str:
         "Definition gen_format_head : list (list N) :=\n  " + clist([cstr(x) for x in head]) + ".",
         "(* arguments of the _emit_access_log call in _dispatch_telemetry *)",
         "Definition gen_telemetry_args : list (list N * list N) :=\n  " + clist([pair(k, v) for k, v in targs]) + ".",
+        "(* _unpack_and_recover_state up to the state rebuild: the stream id is published after the lookup, hit or miss *)",
+        "Definition gen_recover_head : list (list N) :=\n  " + clist([cstr(x) for x in rhead]) + ".",
     ]
     return "\n".join(out) + "\n"
 
